@@ -43,7 +43,7 @@ type ipState struct {
 	i      int
 	failed ssa.Instruction // call site (in ctx.Fn) whose callee returned through a provably failing return
 	okSite ssa.Instruction // call site (in ctx.Fn) whose callee returned a constant nil error
-	// pending deferred calls are handled at RunDefers
+	st     string          // client path state (e.g. the lockset)
 }
 
 type ipKey struct {
@@ -51,6 +51,7 @@ type ipKey struct {
 	in     ssa.Instruction
 	failed ssa.Instruction
 	okSite ssa.Instruction
+	st     string
 }
 
 // IPWalk explores the interprocedural graph obtained by cloning module callees by call string.
@@ -63,6 +64,12 @@ type IPWalk struct {
 	SkipEdge func(ctx *Ctx, b *ssa.BasicBlock, k int) bool
 	// NoInline: callee is treated as an opaque event.
 	NoInline func(callee *ssa.Function) bool
+	// Init is the initial path state; Transfer updates it after an instruction executed; EdgeTransfer when an edge is taken.
+	Init         string
+	Transfer     func(n Node, st string) string
+	EdgeTransfer func(ctx *Ctx, b *ssa.BasicBlock, k int, st string) string
+	// States records every path state in which a node was reached (when Transfer is set).
+	States map[Node]map[string]bool
 
 	seen     map[ipKey]bool
 	parent   map[ipKey]ipKey
@@ -179,12 +186,13 @@ func (w *IPWalk) Run(entry *Ctx, starts []Node) {
 	w.parent = map[ipKey]ipKey{}
 	w.Reached = map[Node]bool{}
 	w.firstKey = map[Node]ipKey{}
+	w.States = map[Node]map[string]bool{}
 	var work []ipState
 	push := func(from ipKey, s ipState) {
 		if s.i >= len(s.b.Instrs) {
 			return
 		}
-		k := ipKey{s.ctx, s.b.Instrs[s.i], s.failed, s.okSite}
+		k := ipKey{s.ctx, s.b.Instrs[s.i], s.failed, s.okSite, s.st}
 		if w.seen[k] {
 			return
 		}
@@ -193,7 +201,7 @@ func (w *IPWalk) Run(entry *Ctx, starts []Node) {
 		work = append(work, s)
 	}
 	if starts == nil {
-		push(ipKey{}, ipState{ctx: entry, b: entry.Fn.Blocks[0], i: 0})
+		push(ipKey{}, ipState{ctx: entry, b: entry.Fn.Blocks[0], i: 0, st: w.Init})
 	}
 	for _, n := range starts {
 		if de, ok := n.In.(deferEvent); ok {
@@ -208,7 +216,7 @@ func (w *IPWalk) Run(entry *Ctx, starts []Node) {
 						bb := rd.Block()
 						for i, x := range bb.Instrs {
 							if x == ssa.Instruction(rd) {
-								push(ipKey{n.Ctx, n.In, nil, nil}, ipState{ctx: n.Ctx, b: bb, i: i + 1})
+								push(ipKey{n.Ctx, n.In, nil, nil, ""}, ipState{ctx: n.Ctx, b: bb, i: i + 1, st: w.Init})
 							}
 						}
 					}
@@ -219,7 +227,7 @@ func (w *IPWalk) Run(entry *Ctx, starts []Node) {
 		b := n.In.Block()
 		for i, in := range b.Instrs {
 			if in == n.In {
-				from := ipKey{n.Ctx, n.In, nil, nil}
+				from := ipKey{n.Ctx, n.In, nil, nil, ""}
 				w.afterInstr(from, ipState{ctx: n.Ctx, b: b, i: i}, push, true)
 			}
 		}
@@ -228,14 +236,25 @@ func (w *IPWalk) Run(entry *Ctx, starts []Node) {
 		s := work[len(work)-1]
 		work = work[:len(work)-1]
 		in := s.b.Instrs[s.i]
-		key := ipKey{s.ctx, in, s.failed, s.okSite}
+		key := ipKey{s.ctx, in, s.failed, s.okSite, s.st}
 		n := Node{s.ctx, in}
 		if !w.Reached[n] {
 			w.Reached[n] = true
 			w.firstKey[n] = key
 		}
+		if w.Transfer != nil {
+			m := w.States[n]
+			if m == nil {
+				m = map[string]bool{}
+				w.States[n] = m
+			}
+			m[s.st] = true
+		}
 		if w.Visit != nil && w.Visit(n) {
 			continue
+		}
+		if w.Transfer != nil {
+			s.st = w.Transfer(n, s.st)
 		}
 		w.afterInstr(key, s, push, false)
 	}
@@ -257,9 +276,11 @@ func (w *IPWalk) afterInstr(key ipKey, s ipState, push func(ipKey, ipState), ski
 		defers := deferredCalls(s.ctx.Fn, x)
 		if len(defers) > 0 && !skipCallEntry {
 			// enter the first (last registered) deferred call; continuation handled in ret via defer chain
-			if w.enterDeferred(key, s, defers, 0, push) {
+			entered, st := w.enterDeferred(key, s, defers, 0, push)
+			if entered {
 				return
 			}
+			s.st = st
 		}
 	case *ssa.Return:
 		w.ret(key, s, x, push)
@@ -283,16 +304,20 @@ func (w *IPWalk) afterInstr(key ipKey, s ipState, push func(ipKey, ipState), ski
 					}
 				}
 			}
-			push(key, ipState{ctx: s.ctx, b: succ, i: 0, failed: s.failed, okSite: s.okSite})
+			st := s.st
+			if w.EdgeTransfer != nil {
+				st = w.EdgeTransfer(s.ctx, s.b, k, st)
+			}
+			push(key, ipState{ctx: s.ctx, b: succ, i: 0, failed: s.failed, okSite: s.okSite, st: st})
 		}
 		return
 	case *ssa.Jump:
-		push(key, ipState{ctx: s.ctx, b: s.b.Succs[0], i: 0, failed: s.failed, okSite: s.okSite})
+		push(key, ipState{ctx: s.ctx, b: s.b.Succs[0], i: 0, failed: s.failed, okSite: s.okSite, st: s.st})
 		return
 	case *ssa.Panic:
 		return
 	}
-	push(key, ipState{ctx: s.ctx, b: s.b, i: s.i + 1, failed: s.failed, okSite: s.okSite})
+	push(key, ipState{ctx: s.ctx, b: s.b, i: s.i + 1, failed: s.failed, okSite: s.okSite, st: s.st})
 }
 
 // valueOfCall reports whether v is (an extract of) the result of call instruction site.
@@ -316,7 +341,7 @@ func (w *IPWalk) enter(key ipKey, s ipState, site ssa.Instruction, cc *ssa.CallC
 		}
 	}
 	k := w.child(s.ctx, site, f, mc, mcCtx)
-	push(key, ipState{ctx: k, b: f.Blocks[0], i: 0})
+	push(key, ipState{ctx: k, b: f.Blocks[0], i: 0, st: s.st})
 	return true
 }
 
@@ -328,7 +353,7 @@ type deferFrame struct {
 
 var deferFrames = map[*Ctx]*deferFrame{}
 
-func (w *IPWalk) enterDeferred(key ipKey, s ipState, defers []*ssa.Defer, idx int, push func(ipKey, ipState)) bool {
+func (w *IPWalk) enterDeferred(key ipKey, s ipState, defers []*ssa.Defer, idx int, push func(ipKey, ipState)) (bool, string) {
 	for ; idx < len(defers); idx++ {
 		d := defers[idx]
 		f, mc, mcCtx := w.ResolveFunc(s.ctx, &d.Call)
@@ -339,17 +364,28 @@ func (w *IPWalk) enterDeferred(key ipKey, s ipState, defers []*ssa.Defer, idx in
 				w.Reached[n] = true
 				w.firstKey[n] = key
 			}
+			if w.Transfer != nil {
+				m := w.States[n]
+				if m == nil {
+					m = map[string]bool{}
+					w.States[n] = m
+				}
+				m[s.st] = true
+			}
 			if w.Visit != nil {
 				w.Visit(n)
+			}
+			if w.Transfer != nil {
+				s.st = w.Transfer(n, s.st)
 			}
 			continue
 		}
 		k := w.childKeyed(s.ctx, deferKey{s.b.Instrs[s.i], d}, d, f, mc, mcCtx)
 		deferFrames[k] = &deferFrame{defers: defers, idx: idx, at: s}
-		push(key, ipState{ctx: k, b: f.Blocks[0], i: 0})
-		return true
+		push(key, ipState{ctx: k, b: f.Blocks[0], i: 0, st: s.st})
+		return true, s.st
 	}
-	return false
+	return false, s.st
 }
 
 // deferEvent wraps a Defer instruction executed at RunDefers time (so rules can tell registration from execution).
@@ -397,7 +433,7 @@ func (w *IPWalk) ret(key ipKey, s ipState, r *ssa.Return, push func(ipKey, ipSta
 		b := site.Block()
 		for i, in := range b.Instrs {
 			if in == ssa.Instruction(site) {
-				ns := ipState{ctx: ctx.Parent, b: b, i: i + 1}
+				ns := ipState{ctx: ctx.Parent, b: b, i: i + 1, st: s.st}
 				if failedRet {
 					ns.failed = site
 				} else if okRet {
@@ -411,8 +447,10 @@ func (w *IPWalk) ret(key ipKey, s ipState, r *ssa.Return, push func(ipKey, ipSta
 		if fr == nil {
 			return
 		}
-		if !w.enterDeferred(key, fr.at, fr.defers, fr.idx+1, push) {
-			push(key, ipState{ctx: fr.at.ctx, b: fr.at.b, i: fr.at.i + 1, failed: fr.at.failed, okSite: fr.at.okSite})
+		at := fr.at
+		at.st = s.st
+		if entered, st := w.enterDeferred(key, at, fr.defers, fr.idx+1, push); !entered {
+			push(key, ipState{ctx: at.ctx, b: at.b, i: at.i + 1, failed: at.failed, okSite: at.okSite, st: st})
 		}
 	}
 }
